@@ -171,6 +171,7 @@ class ExprMixin:
             if cls.pyclass and self.has_method(cls, '__len__'):
                 raise Unsupported('truthiness through user __len__')
             if cls.has_dict() or cls.kind == 'set':
+                self.on_field_access(st, v, 'size', 'read', None)
                 return z3.And(v.t != NULL, self.hload(st, v, 'size') != 0)
             if cls.kind == 'list':
                 return z3.And(v.t != NULL, self.hload(st, v, 'len') != 0)
@@ -350,6 +351,9 @@ class ExprMixin:
                     else:
                         res.append((SExc('IndexError'), s))
                 return res
+        if isinstance(obj, SVal):
+            # item access on an opaque mapping/sequence argument: arbitrary value (or a KeyError)
+            return [(SVal(self.fresh(st, 'opaque_item', Val)), st)]
         raise Unsupported('subscript of %r' % (obj,))
 
     def dict_getitem(self, obj, key, st, node=None):
@@ -567,6 +571,12 @@ class ExprMixin:
             return b.t == self.int2val(a.t)
         if isinstance(a, SClass) and isinstance(b, SClass):
             return z3.BoolVal(a.name == b.name)
+        for x, y in ((a, b), (b, a)):
+            if isinstance(x, SVal) and isinstance(y, SRef):
+                if identity:
+                    self.assumptions.add('an opaque argument is not the object under verification itself')
+                    return z3.BoolVal(False)
+                return self.fresh(st, 'opaque_eq', z3.BoolSort())
         raise Unsupported('equality between %r and %r' % (a, b))
 
     def contains(self, cont, item, st):
